@@ -51,6 +51,8 @@ fn main() {
     "explore" => {
       let prop = &args[2]; let secs: f64 = args[3].parse().unwrap(); let seed: u64 = args[4].parse().unwrap();
       if prop == "C13" || prop == "C14" { std::process::exit(loader_probe::explore(prop, secs, seed)); }
+      // C11 on layout FILES first (repeat values the loader lets through), then on delivery schedules
+      if prop == "C11" { let rc = loader_probe::explore(prop, (secs / 10.0).min(2.0), seed); if rc == 1 { std::process::exit(1); } }
       if prop == "C10" || prop == "C11" || prop == "C12" || prop == "C20" { std::process::exit(remapping_loop::explore(prop, secs, seed)); }
       std::process::exit(key_transforms::explore(prop, secs, seed));
     },
@@ -66,6 +68,7 @@ fn main() {
       let prop = &args[2];
       let text = std::fs::read_to_string(&args[3]).unwrap();
       if prop == "C13" || prop == "C14" { std::process::exit(loader_probe::replay(prop, &text)); }
+      if prop == "C11" && text.contains("\"json\"") && !text.contains("\"loop_seed\"") { std::process::exit(loader_probe::replay(prop, &text)); }
       if prop == "C10" || prop == "C11" || prop == "C12" || prop == "C20" { std::process::exit(remapping_loop::replay(prop, &text)); }
       std::process::exit(key_transforms::replay(prop, &text));
     },
